@@ -3,7 +3,9 @@
 package csum
 
 import (
+	"encoding/binary"
 	"fmt"
+	"math/bits"
 	"testing"
 	"unsafe"
 
@@ -54,7 +56,180 @@ func pickSeed(r *hlib.Rand) int {
 	return seeds[r.Intn(len(seeds))]
 }
 
+// ---------------------------------------------------------------------------------------------
+// carry-saturation family (deterministic; independent of the generator seed)
+//
+// Random bytes put the 64-bit end-around-carry accumulator of the scalar tail within a few units of
+// 2^64 with probability ~2^-62, so carries *between* the qword adds, into the 4/2/1-byte tails and
+// through the fold rounds are never exercised by patterns alone. This family simulates the reference
+// accumulator and computes buffer words so that it lands exactly on 2^64-1 / -2 / -3 (after 0, 1 or
+// 2 earlier wraps) and the next add is the minimal wrapping / maximal non-wrapping value, for every
+// tail structure (0..3 qword steps, then 4/2/1-byte tails), with and without a 32/64/96-byte vector
+// body in front, for the seeds {0, 1, 0xffff}; plus final accumulator values on every fold-round
+// boundary (2^16, 2^32, 2^33, 2^48, 2^64 +-1).
+
+func addc(a, b uint64) uint64 {
+	s, c := bits.Add64(a, b, 0)
+	return s + c
+}
+
+// accAfterBody is the scalar accumulator after the seed and the vector body (all whole 32-byte chunks).
+func accAfterBody(body []byte, seed uint16) uint64 {
+	ax := uint64(seed>>8 | seed<<8)
+	if len(body) >= 32 {
+		var r8 uint64
+		for i := 0; i+4 <= len(body); i += 4 {
+			r8 += uint64(binary.LittleEndian.Uint32(body[i:]))
+		}
+		ax = addc(ax, r8)
+	}
+	return ax
+}
+
+// land returns q with addc(a, q) == t (possibly through a wrap).
+func land(a, t uint64) uint64 {
+	if t >= a {
+		return t - a
+	}
+	return t - a - 1 // a + q = t + 2^64 - 1, end-around carry adds the 1
+}
+
+func le(q uint64, n int) []byte {
+	var b [8]byte
+	binary.LittleEndian.PutUint64(b[:], q)
+	return b[:n]
+}
+
+func carryBodies() [][]byte {
+	rnd := hlib.NewRand(0xC25).Bytes(96)
+	b32, b64 := make([]byte, 32), make([]byte, 64)
+	for i := range b64 {
+		b64[i] = 0x11
+	}
+	for i := range b32 {
+		b32[i] = 0xff
+	}
+	return [][]byte{nil, b32, b64, rnd}
+}
+
+var carrySeeds = []uint16{0, 1, 0xffff}
+
+func emitSum(emit func(string, ...any), seed uint16, parts ...[]byte) {
+	var buf []byte
+	for _, p := range parts {
+		buf = append(buf, p...)
+	}
+	emit("sum %s %d", hlib.Hex(buf), seed)
+}
+
+func emitCarryFamily(emit func(string, ...any), tier string) {
+	const ones = ^uint64(0)
+	pre := []uint64{0, 1, ones, ones - 1}
+	alpha := []uint64{0, 1, 2, ones, ones - 1, ones - 0xff, 1 << 63}
+	if tier == "thorough" {
+		pre = append(pre, 1<<63, 1<<63-1, 2, ones-0xff)
+		alpha = append(alpha, 1<<63-1, ones-2, 3, 0xff, 0x100000000, 0xffffffff)
+	}
+	targets := []uint64{ones, ones - 1, ones - 2}
+	bodies := carryBodies()
+	// sequences of `n` words over `pre`
+	var seqs func(n int) [][]uint64
+	seqs = func(n int) [][]uint64 {
+		if n == 0 {
+			return [][]uint64{nil}
+		}
+		var out [][]uint64
+		for _, s := range seqs(n - 1) {
+			for _, w := range pre {
+				out = append(out, append(append([]uint64{}, s...), w))
+			}
+		}
+		return out
+	}
+	run := func(a uint64, ws []uint64) (uint64, []byte) {
+		var b []byte
+		for _, w := range ws {
+			a = addc(a, w)
+			b = append(b, le(w, 8)...)
+		}
+		return a, b
+	}
+	for _, body := range bodies {
+		for _, seed := range carrySeeds {
+			a0 := accAfterBody(body, seed)
+			for k := 1; k <= 3; k++ {
+				// form B: land on the last qword, the 4/2/1-byte tails do the wrap
+				for _, ps := range seqs(k - 1) {
+					a, pb := run(a0, ps)
+					for _, t := range targets {
+						q := land(a, t)
+						for _, w := range []uint64{0 - t - 1, 0 - t, 0 - t + 1} { // max non-wrapping, min wrapping, +1
+							for _, tl := range [][]byte{le(w, 1), le(w, 2), le(w, 4), append(le(w, 4), 0xff, 0xff, 0xff), {0, 0, 0, 0, byte(w), 0, byte(w)}} {
+								emitSum(emit, seed, body, pb, le(q, 8), tl)
+							}
+						}
+					}
+				}
+				// form A: land, then the next qword step does the wrap (and a tail follows)
+				if k >= 2 {
+					for _, ps := range seqs(k - 2) {
+						a, pb := run(a0, ps)
+						for _, t := range targets {
+							q := land(a, t)
+							for _, w := range []uint64{0 - t - 1, 0 - t, 0 - t + 1, ones, 1 << 63} {
+								emitSum(emit, seed, body, pb, le(q, 8), le(w, 8))
+								emitSum(emit, seed, body, pb, le(q, 8), le(w, 8), []byte{0xff, 0xff, 0xff})
+							}
+						}
+					}
+				}
+			}
+			// fold-round and reduction boundaries: the final accumulator is exactly v
+			for _, v := range []uint64{0, 1, 0xffff, 0x10000, 0x10001, 0x1fffe, 0x1ffff, 0xfffeffff, 0xffffffff, 0x100000000,
+				0x100000001, 0x1fffffffe, 0x1ffffffff, 0xffff0000ffff, 1<<48 - 1, 1 << 48, 1<<48 + 1, 0xffffffff00000000,
+				0xfffffffeffffffff, 0xffffffffffff0000, 0xfffeffffffffffff, ones - 0xffff, ones - 2, ones - 1, ones} {
+				emitSum(emit, seed, body, le(land(a0, v), 8))
+				if v > 0xff {
+					a, pb := run(a0, []uint64{ones})
+					emitSum(emit, seed, body, pb, le(land(a, v-0xff), 8), []byte{0xff})
+				}
+			}
+		}
+	}
+	// exhaustive products of the carry-heavy alphabet, 1..3 qwords (+ a wrapping tail byte)
+	for _, body := range [][]byte{nil, bodies[2]} {
+		for _, seed := range carrySeeds {
+			for k := 1; k <= 3; k++ {
+				idx := make([]int, k)
+				for {
+					var b []byte
+					for _, i := range idx {
+						b = append(b, le(alpha[i], 8)...)
+					}
+					emitSum(emit, seed, body, b)
+					if tier == "thorough" {
+						emitSum(emit, seed, body, b, []byte{1})
+						emitSum(emit, seed, body, b, []byte{0xff, 0xff, 0xff, 0xff, 3})
+					}
+					j := 0
+					for ; j < k; j++ {
+						idx[j]++
+						if idx[j] < len(alpha) {
+							break
+						}
+						idx[j] = 0
+					}
+					if j == k {
+						break
+					}
+				}
+			}
+		}
+	}
+}
+
 func gen(r *hlib.Rand, n int, tier, profile string, emit func(string, ...any)) {
+	emitCarryFamily(emit, tier)
 	if tier == "thorough" {
 		// the grid of DESIGN §5 C25: every length 0..4096 x 8 start offsets mod 32 x the six fixed seeds +
 		// one random; the pattern rotates (one draw per grid point and generator seed)
